@@ -3,6 +3,7 @@ C18 — clauses that are false of the current code, refuted on concrete inputs (
 lines of known_findings.txt and replay functions of py/props/c18.py).
 -/
 import WpModel.Props.C18
+import WpModel.Props.C18Pdf
 
 namespace Wp.Witness.C18
 open Wp Wp.Anchors Wp.Outline Wp.C18
@@ -37,4 +38,20 @@ theorem dests_not_byte_sorted :
   revert h1
   decide
 
-end Wp.Witness.C18
+/-- `<title>a&#13;b</title>`: the ASCII string `a CR b` is written as the literal string `(a CR b)` with the
+carriage return unescaped, and an unescaped end-of-line in a literal string reads as a line feed
+(ISO 32000-1 7.3.4.2): the title comes back as `a LF b`.  U+0018 comes back as U+02D8 (PDFDocEncoding).
+With a non-ASCII character in the same string (hexadecimal UTF-16) both survive:
+`pdf_string_roundtrip_unicode`. -/
+theorem pdf_string_cr :
+    Wp.PdfStr.encode [97, 13, 98] = .ok [40, 97, 13, 98, 41] ∧
+    Wp.PdfStr.decode [40, 97, 13, 98, 41] = some [97, 10, 98] ∧
+    Wp.PdfStr.decode [40, 24, 41] = some [728] := ⟨rfl, by decide, by decide⟩
+
+/-- Attachments `b.txt` then `a.txt`: the `/EmbeddedFiles` name array lists the keys in document order,
+`(b.txt)` before `(a.txt)` — not the sorted order ISO 32000-1 7.9.6 requires of a name tree. -/
+theorem embedded_files_not_sorted :
+    (Wp.Attach.embeddedFiles [] 10
+      [⟨some 1, some "b.txt", none, none⟩, ⟨some 1, some "a.txt", none, none⟩]).2.1 =
+      some ⟨14, [("b.txt", 11), ("a.txt", 13)]⟩ ∧
+    nameLt ("b.txt".toList.map Char.toNat) ("a.txt".toList.map Char.toNat) = false := ⟨by decide, by decide⟩
